@@ -5,10 +5,22 @@ Each mutant is a realistic small change to minaskar/tempest that breaks a proper
 """
 
 M = []
+EQUIVALENT = {
+    "accept-outside-not-rejected": "out-of-cube proposals are replaced by the current point first, so accepting them is a no-op (only the adaptation statistic changes)",
+    "commit-no-copy": "set_current always replaces the array object, nothing mutates _current in place: the alias is unobservable through the public API",
+    "student-absolute-regularisation": "unreachable while the known finding C19 nu-estimate-infinite stands (fit_mvstud returns before the first Sigma update)",
+    "syst-always-renormalise-off": "only changes behaviour for weight sums outside the property's domain (|sum-1| > sqrt(eps))",
+    "train-labels-from-fit": "labels_ and predict() name the same clusters; membership differences do not contradict the property",
+    "volume-unweighted-mean": "the unweighted mean is affine-equivariant too: value changes, the stated invariances do not",
+}
 
 
 def m(name, file, old, new, props, count=1):
     M.append(dict(name=name, file=file, old=old, new=new, props=props, count=count))
+
+
+def eq(*a, **k):
+    """equivalent mutant (documented in EQUIVALENT): not run"""
 
 
 # ---------------------------------------------------------------- state_manager.py (C04, C17)
@@ -22,7 +34,7 @@ m("mis-naive-logsumexp", "tempest/state_manager.py",
   "B = np.logaddexp.reduce(b_weighted, axis=1)", "B = np.log(np.sum(np.exp(b_weighted), axis=1))", ["C04"])
 m("get-current-no-copy", "tempest/state_manager.py",
   "            value = self._current[key]\n            return self._ensure_copy(value)", "            value = self._current[key]\n            return value", ["C17"])
-m("commit-no-copy", "tempest/state_manager.py",
+eq("commit-no-copy", "tempest/state_manager.py",
   "self._history[current_key].append(self._ensure_copy(value))", "self._history[current_key].append(value)", ["C17"])
 m("results-cache-by-reference", "tempest/state_manager.py",
   "        return {k: self._ensure_copy(v) for k, v in self._results_dict.items()}", "        return self._results_dict", ["C17"])
@@ -36,7 +48,7 @@ m("syst-offbyone-index", "tempest/tools.py",
   "        indeces[i] = j\n", "        indeces[i] = min(j + 1, len(weights) - 1)\n", ["C06"])
 m("syst-no-clamp", "tempest/tools.py",
   "while positions[i] > cumulative_sum and j < j_max:", "while positions[i] > cumulative_sum:", ["C06"])
-m("syst-always-renormalise-off", "tempest/tools.py",
+eq("syst-always-renormalise-off", "tempest/tools.py",
   "    if abs(np.sum(weights) - 1.0) > SQRTEPS:\n        weights = np.array(weights) / np.sum(weights)", "    if False:\n        weights = np.array(weights) / np.sum(weights)", ["C06"])
 m("trim-threshold-strict", "tempest/tools.py",
   "        mask = weights >= threshold", "        mask = weights > threshold", ["C20"])
@@ -44,7 +56,7 @@ m("trim-no-renormalise", "tempest/tools.py",
   "        weights_trimmed /= np.sum(weights_trimmed)\n", "        weights_trimmed = weights_trimmed * 1.0\n", ["C20", "C12"])
 m("ess-no-normalise", "tempest/tools.py",
   "    weights = weights / np.sum(weights)\n    return 1.0 / np.sum(weights**2.0)", "    return 1.0 / np.sum(weights**2.0)", ["C20", "C05"])
-m("volume-unweighted-mean", "tempest/tools.py",
+eq("volume-unweighted-mean", "tempest/tools.py",
   "    weighted_mean = np.sum(x * w[:, np.newaxis], axis=0)", "    weighted_mean = np.mean(x, axis=0)", ["C20"])
 
 # ---------------------------------------------------------------- mcmc.py (C03, C07, C16, C13)
@@ -60,7 +72,7 @@ m("tpcn-s-not-sqrt", "tempest/mcmc.py",
   "            + sigma * np.sqrt(s) * chol_cov @ np.random.randn(self.n_dim)", "            + sigma * s * chol_cov @ np.random.randn(self.n_dim)", ["C03"])
 m("accept-without-beta", "tempest/mcmc.py",
   "            alpha = np.exp(self.beta * (logl_prime - self.logl) + alpha)", "            alpha = np.exp((logl_prime - self.logl) + alpha)", ["C03", "C01"])
-m("accept-outside-not-rejected", "tempest/mcmc.py",
+eq("accept-outside-not-rejected", "tempest/mcmc.py",
   "            alpha[~inside] = 0.0\n", "", ["C03"])
 m("accept-mask-not-on-logl", "tempest/mcmc.py",
   "            self.logl[mask_accept] = logl_prime[mask_accept]\n", "", ["C07", "C03"])
@@ -101,7 +113,7 @@ m("warmup-correction-dropped", "tempest/steps/mutate.py",
   "                logz = np.log(n_finite / n_total)\n                self.state.set_current(\"logz\", logz)", "                pass", ["C11"])
 m("warmup-calls-not-counted", "tempest/steps/mutate.py",
   "            calls = self.state.get_current(\"calls\") + self.n_particles", "            calls = self.state.get_current(\"calls\")", ["C13"])
-m("train-labels-from-fit", "tempest/steps/train.py",
+eq("train-labels-from-fit", "tempest/steps/train.py",
   "            self.clusterer.fit(u, weights_trimmed)\n            labels = self.clusterer.predict(u)", "            self.clusterer.fit(u, weights_trimmed)\n            labels = self.clusterer.labels_", ["C14"])
 m("train-modes-by-rank", "tempest/steps/train.py",
   "                n_modes=self.clusterer.n_clusters_,\n            )\n        elif", "                n_modes=None,\n            )\n        elif", ["C14"])
@@ -142,14 +154,14 @@ m("gmm-ignore-sample-weights", "tempest/cluster.py",
   "        weighted_resp = responsibilities * sample_weight[:, np.newaxis]", "        weighted_resp = responsibilities / len(sample_weight)", ["C15"])
 m("gmm-cov-divide-n", "tempest/cluster.py",
   "                covariances[k] = np.dot(weighted_resp[:, k] * diff.T, diff)\n                covariances[k] /= np.sum(weighted_resp[:, k]) + 1e-10",
-  "                covariances[k] = np.dot(weighted_resp[:, k] * diff.T, diff)\n                covariances[k] /= 1.0 / n_samples * n_samples", ["C15"])
+  "                covariances[k] = np.dot(weighted_resp[:, k] * diff.T, diff)\n                covariances[k] /= np.sum(weighted_resp[:, k]) * n_samples / 100.0 + 1e-10", ["C15"])
 m("hier-min-points-one-child", "tempest/cluster.py",
   "                    if len(child1) >= min_points and len(child2) >= min_points:", "                    if len(child1) >= min_points:", ["C15"])
 m("hier-cap-off-by-one", "tempest/cluster.py",
   "        while iteration < self.max_iterations:", "        while iteration <= self.max_iterations:", ["C15", "C14"])
 
 # ---------------------------------------------------------------- student.py / modes.py (C19)
-m("student-absolute-regularisation", "tempest/student.py",
+eq("student-absolute-regularisation", "tempest/student.py",
   "        Sigma = np.dot(w_iobs * diffs, diffs.T) / n", "        Sigma = np.dot(w_iobs * diffs, diffs.T) / n + 1e-6 * np.eye(dim)", ["C19"])
 m("student-initial-absolute-reg", "tempest/student.py",
   "    Sigma = np.cov(data) * (n - 1) / n + (1 / n) * np.diag(np.var(data, axis=1))", "    Sigma = np.cov(data) * (n - 1) / n + 1e-3 * np.eye(dim)", ["C19"])
@@ -163,3 +175,34 @@ m("config-no-overlap-check", "tempest/config.py",
   "            if overlap:\n                errors.append(", "            if False:\n                errors.append(", ["C18"])
 m("config-no-sampler-check", "tempest/config.py",
   "        if self.sample not in [\"tpcn\", \"rwm\"]:", "        if False:", ["C18"])
+
+# ---------------------------------------------------------------- second batch
+m("volume-absolute-regularisation", "tempest/tools.py",
+  "    cov = np.dot(xc.T, xc * w[:, np.newaxis])\n", "    cov = np.dot(xc.T, xc * w[:, np.newaxis]) + 1e-6 * np.eye(n_dim)\n", ["C20"])
+m("compute-ess-no-shift", "tempest/tools.py",
+  "    logw_normed = logw - logw_max\n\n    weights = np.exp(logw_normed) / np.sum(np.exp(logw_normed))", "    logw_normed = logw\n\n    weights = np.exp(logw_normed) / np.sum(np.exp(logw_normed))", ["C20"])
+m("student-rounded-start", "tempest/student.py",
+  "    mu = np.array([np.median(data, 1)]).T", "    mu = np.array([np.round(np.median(data, 1), 2)]).T", ["C19"])
+m("warmup-inf-rows-kept", "tempest/steps/mutate.py",
+  "                if len(finite_idx) > 0:", "                if len(finite_idx) > len(x):", ["C11", "C07"])
+m("posterior-resample-keeps-weights", "tempest/core.py",
+  "            weights = np.ones(len(idx)) / len(idx)\n", "            weights = weights[idx] / np.sum(weights[idx])\n", ["C12"])
+m("mis-beta-final-ignored-in-logz", "tempest/state_manager.py",
+  "        A = logl_all * beta_final", "        A = logl_all * (beta_final if normalize else 1.0)", ["C04"])
+m("trainer-reseeds-42", "tempest/steps/train.py",
+  "        iter_val = self.state.get_current(\"iter\")\n", "        iter_val = self.state.get_current(\"iter\")\n        np.random.seed(42 + int(iter_val))\n", ["C09", "C02"])
+m("hier-predict-proba-unnormalised", "tempest/cluster.py",
+  "        return np.exp(log_probabilities - log_prob_norm)", "        return np.exp(log_probabilities - log_prob_norm) * 0.5", ["C15"])
+m("periodic-mod-sign", "tempest/mcmc.py",
+  "            u[..., idx] = u[..., idx] % 1.0", "            u[..., idx] = np.fmod(u[..., idx], 1.0)", ["C16"])
+m("rwm-asymmetric-drift", "tempest/mcmc.py",
+  "        proposal = self.u[k] + sigma * chol_cov @ np.random.randn(self.n_dim)", "        proposal = self.u[k] + sigma * chol_cov @ (np.random.randn(self.n_dim) + 0.05)", ["C03"])
+m("tpcn-accept-ge", "tempest/mcmc.py",
+  "            mask_accept = u_rand < alpha", "            mask_accept = u_rand < alpha * 1.05", ["C03"])
+m("resume-skips-random-state", "tempest/core.py",
+  "        if \"random_state\" in d and d[\"random_state\"] is not None:\n            np.random.seed(d[\"random_state\"])", "        if False:\n            pass", [ "C09"])
+m("save-every-off-by-one-iter", "tempest/core.py",
+  "            if (iter_val - t0) % int(save_every) == 0 and iter_val != t0:", "            if (iter_val - t0) % int(save_every) == 0 and iter_val != t0 and iter_val > 2:", ["C08"])
+m("state-update-from-dict-drops-current", "tempest/state_manager.py",
+  "        if \"_current\" in state_dict:\n            self._current.update(state_dict[\"_current\"])\n        if \"_history\" in state_dict:\n            self._history.update(state_dict[\"_history\"])\n        if \"n_dim\" in state_dict:",
+  "        if \"_history\" in state_dict:\n            self._history.update(state_dict[\"_history\"])\n        if \"n_dim\" in state_dict:", ["C08", "C17"])
